@@ -130,10 +130,11 @@ func (r *c09Run) call(fn *ssa.Function, args ...Val) (Val, string) {
 	r.st.Status = stRun
 	r.st.Frames = nil
 	r.st.push(fn, args, nil)
-	out := r.m.Run(r.st)
+	out := mergeSame(r.m, r.m.Run(r.st))
 	if len(out) != 1 {
 		return nil, fmt.Sprintf("undecided: %d paths", len(out))
 	}
+	r.st = out[0]
 	switch out[0].Status {
 	case stRet:
 		return r.st.Ret, ""
@@ -984,3 +985,46 @@ func c09Types(p *Prog, rp *Report, supported map[string]bool) {
 }
 
 func unmarshal(n *types.Named) *types.Interface { return n.Underlying().(*types.Interface) }
+
+// mergeSame drops final states that are identical to an earlier one (same status, result, effects and
+// canonical heap): the iteration orders of a map that the code does not depend on end in the same state.
+func mergeSame(m *Machine, outs []*State) []*State {
+	if len(outs) < 2 {
+		return outs
+	}
+	none := func(i int) string { return fmt.Sprint(i) }
+	seen := map[string]bool{}
+	var res []*State
+	for _, o := range outs {
+		c := o.Clone()
+		k := fmt.Sprint(o.Status) + "|" + o.Msg + "|" + strings.Join(o.Effects, ";")
+		if o.Status == stRet {
+			// the result is kept alive for the key by parking it in a frame-less state's Ret
+			k += "|" + fmtVal(o.Ret, none)
+		}
+		c.Frames = nil
+		k += "|" + heapDigest(c, o.Ret)
+		if !seen[k] {
+			seen[k] = true
+			res = append(res, o)
+		}
+	}
+	return res
+}
+
+// heapDigest renders everything reachable from the globals and from root, in a canonical order.
+func heapDigest(st *State, root Val) string {
+	var b strings.Builder
+	b.WriteString(deepRender(st, root, 0))
+	var gs []*ssa.Global
+	for g := range st.Globals {
+		gs = append(gs, g)
+	}
+	sort.Slice(gs, func(i, j int) bool { return gs[i].Pos() < gs[j].Pos() })
+	for _, g := range gs {
+		if o, ok := st.Heap[st.Globals[g]]; ok {
+			b.WriteString("|" + g.Name() + "=" + deepRender(st, o.V, 0))
+		}
+	}
+	return b.String()
+}
